@@ -32,7 +32,7 @@ def rule_seek(ctx):
               'stores: %s' % [(x[0], x[1]) for x in st],
               bad_detail='seek stores %s; it must store the position returned by the inner reader' % [(x[0], x[1]) for x in st])
     if st:
-        ctx.check('seek', 'only-on-success', st[0][2] == ['branch(seek(self.reader, a2)) is Continue'], (s, st[0][3]), 'stored on the Ok edge')
+        ctx.check('seek', 'only-on-success', st[0][2] == ['seek(self.reader, a2) is Ok'], (s, st[0][3]), 'stored on the Ok edge')
     rets = [canon(s.rvalue_expr(d[3])) for d in s.defs().get(0, []) if d[0] == 'assign']
     ctx.check('seek', 'returns-new-position', rets == ['Result::Ok{0: self.absolute_pos}'] or rets == ['Result::Ok{0: seek(self.reader, a2)?}'], s, 'returns %s' % rets)
     inner = [c for c in s.calls if mir.method_name(c.name) == 'seek']
@@ -59,7 +59,7 @@ def rule_read(ctx):
         else:
             ctx.violation('read', 'unexpected-store:%s' % pe, (r, bb), '%s = %s' % (pe, ve))
     i = 'each(Range::Range{start: 0, end: %s})' % n
-    key = '(self.xor_key as Some).0'
+    key = 'self.xor_key?'
     want_idx = '((((%s as u64) + self.absolute_pos) %% (len(%s) as u64)) as usize)' % (i, key)
     want = '(a2[%s] ^ %s[%s])' % (i, key, want_idx)
     alt = '(a2[%s] ^ %s[((((self.absolute_pos + (%s as u64)) %% (len(%s) as u64)) as usize)])' % (i, key, i, key)
